@@ -622,4 +622,10 @@ theorem itemsP_leafAt (kvs : Kvs) (p : List Name) (v : Tree) (hw : wfK P kvs = t
     (p, v) ∈ itemsP kvs ↔ LeafAt kvs p v :=
   ⟨itemsP_leafAt_mp p kvs v hw, fun h => itemsP_leafAt_mpr h hw⟩
 
+theorem leafAt_isLeaf {kvs : Kvs} {p : List Name} {v : Tree} (hl : LeafAt kvs p v) : IsLeafVal v := by
+  induction hl with
+  | leaf _ hv => exact hv
+  | down _ _ _ ih => exact ih
+  | elem _ _ _ _ _ ih => exact ih
+
 end Cpppo.Dotdict
